@@ -6,7 +6,11 @@ package harness
 // they run directly on the block context, as in production.
 
 import (
+	"bytes"
+	"crypto/sha256"
+	"encoding/hex"
 	"fmt"
+	"sort"
 	"time"
 
 	"cosmossdk.io/math"
@@ -46,6 +50,8 @@ type Event struct {
 	Delay    int64 `json:"delay"`
 	Interval int64 `json:"interval"`
 	Last     int64 `json:"last"`
+	// Branch: execute on a discarded branch of the current state (the trace does not advance)
+	Branch bool `json:"branch"`
 }
 
 type Result struct {
@@ -62,6 +68,11 @@ type Result struct {
 	Same bool `json:"same"`
 	// Direct hook call: the error the hook returned (x/staking would only log it)
 	HookErr string `json:"hookErr"`
+	// Determinism: number of sibling replays of this step and whether all of them produced byte-identical stores,
+	// results and events
+	DetN    int    `json:"detn"`
+	Det     bool   `json:"det"`
+	DetDiff string `json:"detDiff"`
 }
 
 func decRaw(s string) math.LegacyDec {
@@ -338,7 +349,14 @@ func (w *World) exec(e Event) Result {
 		})
 
 	case "ExportImport":
-		return w.direct(func(ctx sdk.Context) error { return w.exportImport(ctx) })
+		same := false
+		r := w.direct(func(ctx sdk.Context) error {
+			var err error
+			same, err = w.exportImport(ctx)
+			return err
+		})
+		r.Same = same
+		return r
 	}
 	panic("unknown event " + e.Ev)
 }
@@ -367,12 +385,16 @@ func (w *World) acct(n string) sdk.AccAddress {
 }
 
 // exportImport exports the module genesis, wipes the module store and imports it again.
-func (w *World) exportImport(ctx sdk.Context) error {
+// It reports whether a second export is byte-identical to the first.
+func (w *World) exportImport(ctx sdk.Context) (bool, error) {
 	k := w.App.AllianceKeeper
 	gs := k.ExportGenesis(ctx)
+	b1 := w.App.AppCodec().MustMarshalJSON(gs)
 	wipeStore(ctx, w)
 	k.InitGenesis(ctx, gs)
-	return nil
+	gs2 := k.ExportGenesis(ctx)
+	b2 := w.App.AppCodec().MustMarshalJSON(gs2)
+	return bytes.Equal(b1, b2), nil
 }
 
 func wipeStore(ctx sdk.Context, w *World) {
@@ -393,3 +415,95 @@ func runAllInvariants(ctx sdk.Context, w *World) (string, bool) {
 }
 
 var _ = time.Second
+
+// ---- determinism replays (C19) ----
+
+var detStores = []string{"alliance", "bank", "staking", "distribution", "slashing", "acc", "mint"}
+
+// storeDigest hashes the raw key/value content of the stores the state machine writes.
+func (w *World) storeDigest(ctx sdk.Context) string {
+	h := sha256.New()
+	for _, name := range detStores {
+		func() {
+			defer func() { _ = recover() }()
+			key := w.App.GetKey(name)
+			if key == nil {
+				return
+			}
+			it := ctx.KVStore(key).Iterator(nil, nil)
+			defer it.Close()
+			for ; it.Valid(); it.Next() {
+				h.Write([]byte(name))
+				h.Write(it.Key())
+				h.Write([]byte{0})
+				h.Write(it.Value())
+				h.Write([]byte{1})
+			}
+		}()
+	}
+	return hex.EncodeToString(h.Sum(nil))
+}
+
+func eventsDigest(ctx sdk.Context) string {
+	h := sha256.New()
+	for _, e := range ctx.EventManager().Events() {
+		h.Write([]byte(e.Type))
+		for _, a := range e.Attributes {
+			h.Write([]byte(a.Key))
+			h.Write([]byte{0})
+			h.Write([]byte(a.Value))
+			h.Write([]byte{1})
+		}
+	}
+	return hex.EncodeToString(h.Sum(nil))
+}
+
+// branchExec runs e on a discarded branch of the current state and returns the result, the digest of the stores and
+// of the emitted events, and the projected state.
+func (w *World) branchExec(e Event, project bool) (Result, string, *PState) {
+	saved := w.Ctx
+	don := map[string]math.Int{}
+	for k, v := range w.Donated {
+		don[k] = v
+	}
+	defer func() { w.Ctx = saved; w.Donated = don }()
+	cctx, _ := saved.CacheContext()
+	w.Ctx = cctx.WithEventManager(sdk.NewEventManager())
+	res := w.Exec(e)
+	d := w.storeDigest(w.Ctx) + "/" + eventsDigest(w.Ctx) + "/" + fmt.Sprint(res.Ok, res.Err, res.Panic)
+	var ps *PState
+	if project {
+		p := w.Project(w.Ctx)
+		ps = &p
+	}
+	return res, d, ps
+}
+
+// ExecDet executes e for real and, before that, k times on sibling branches of the same state; all executions must agree.
+func (w *World) ExecDet(e Event, k int) Result {
+	if k <= 0 || e.Ev == "BeginBlock" {
+		return w.Exec(e)
+	}
+	var digests []string
+	for i := 0; i < k; i++ {
+		_, d, _ := w.branchExec(e, false)
+		digests = append(digests, d)
+	}
+	// the real execution, measured the same way
+	saved := w.Ctx
+	w.Ctx = saved.WithEventManager(sdk.NewEventManager())
+	pre := w.Ctx
+	_ = pre
+	res := w.Exec(e)
+	d := w.storeDigest(w.Ctx) + "/" + eventsDigest(w.Ctx) + "/" + fmt.Sprint(res.Ok, res.Err, res.Panic)
+	w.Ctx = w.Ctx.WithEventManager(saved.EventManager())
+	digests = append(digests, d)
+	res.DetN = len(digests)
+	res.Det = true
+	sort.Strings(digests)
+	if digests[0] != digests[len(digests)-1] {
+		res.Det = false
+		res.DetDiff = digests[0][:16] + " vs " + digests[len(digests)-1][:16]
+	}
+	return res
+}
